@@ -102,7 +102,10 @@ void reindent_line(Chunk *pc, size_t column)
       }
       else
       {
-         pc->SetColumn(max(pc->GetColumn() + col_delta, min_col));
+         // a chunk cannot be moved to the left of column zero: the unsigned sum must not wrap around
+         const size_t shifted = (  col_delta < 0
+                                && pc->GetColumn() < static_cast<size_t>(-col_delta)) ? 0 : pc->GetColumn() + col_delta;
+         pc->SetColumn(max(shifted, min_col));
 
          LOG_FMT(LINDLINED, "%s(%d): set column of ", __func__, __LINE__);
 
